@@ -30,11 +30,11 @@ fn unhex(s: &str) -> Vec<u8> {
         })
         .collect()
 }
-fn s(b: &[u8]) -> String {
+pub fn s(b: &[u8]) -> String {
     String::from_utf8_lossy(b).to_string()
 }
 
-fn format_of(style: &[u8], prec: &[u8]) -> Format {
+pub fn format_of(style: &[u8], prec: &[u8]) -> Format {
     let style = match style {
         b"compressed" => Style::Compressed,
         b"introspection" => Style::Introspection,
@@ -46,7 +46,9 @@ fn format_of(style: &[u8], prec: &[u8]) -> Format {
     }
 }
 
-enum Out {
+include!(concat!(env!("OUT_DIR"), "/cmds.rs"));
+
+pub enum Out {
     Ok(Vec<Vec<u8>>),
     Err(Vec<Vec<u8>>),
 }
@@ -102,7 +104,7 @@ impl Loader for MemLoader {
     }
 }
 
-fn res(r: Result<Vec<u8>, rsass::Error>) -> Out {
+pub fn res(r: Result<Vec<u8>, rsass::Error>) -> Out {
     match r {
         Ok(v) => Out::Ok(vec![v]),
         Err(e) => {
@@ -339,7 +341,8 @@ fn run(cmd: &str, a: &[Vec<u8>]) -> Out {
             }
             Out::Ok(all)
         }
-        _ => Out::Err(vec![b"unknown command".to_vec(), cmd.as_bytes().to_vec()]),
+        _ => dispatch(cmd, a)
+            .unwrap_or_else(|| Out::Err(vec![b"unknown command".to_vec(), cmd.as_bytes().to_vec()])),
     }
 }
 
